@@ -137,6 +137,8 @@ func genC01(seed uint64) (*Scenario, *c01Meta) {
 		{Name: "t0.csv", Content: c01Table(m.Rows, 0)},
 		{Name: "t1.csv", Content: c01Table(r.Range(0, 8), 2)},
 		{Name: "bystander.csv", Content: "a,b\n1,2\n"},
+		{Name: "inc0.sql", Content: "UPDATE t0 SET n = n + 10 WHERE id < 3;\n"},
+		{Name: "inc1.sql", Content: "INSERT INTO t1 (id, n, s) VALUES (901, 9, 'src');\nUPDATE t1 SET n = n + 1 WHERE id = 901;\n"},
 	}
 	if r.Bool(0.7) {
 		// the temporary table gets its first contents and a restore point (COMMIT)
@@ -149,7 +151,16 @@ func genC01(seed uint64) (*Scenario, *c01Meta) {
 	}
 	n := r.Range(3, 10)
 	for i := 0; i < n; i++ {
-		switch k := r.Intn(18); {
+		switch k := r.Intn(21); {
+		case k == 18:
+			// attributes of the written file are part of the transaction too
+			t := []string{"t0", "t1"}[r.Intn(2)]
+			g.lines = append(g.lines, fmt.Sprintf("ALTER TABLE %s SET %s;", t, r.PickS("ENCLOSE_ALL TO TRUE", "LINE_BREAK TO CRLF", "LINE_BREAK TO LF", "ENCLOSE_ALL TO FALSE", "ENCODING TO UTF8M", "ENCODING TO UTF8")))
+		case k == 19:
+			// statements read from a file of the repository
+			g.lines = append(g.lines, r.PickS("SOURCE `inc0.sql`;", "SOURCE `inc1.sql`;"))
+		case k == 20:
+			g.lines = append(g.lines, "SHOW TABLES; SHOW VIEWS; PRINTF '%s-%s' USING 'a', 1;")
 		case k == 14:
 			// statements executed from a string: they belong to the same transaction
 			t := g.pickTable()
@@ -257,6 +268,11 @@ func genC01(seed uint64) (*Scenario, *c01Meta) {
 	sc.Procs = []ProcSpec{{Program: strings.Join(g.lines, "\n"), CPU: cpu, WaitTimeoutS: 10.0000001, RetryDelayNs: 10001009, Quiet: true, Format: "CSV"}}
 	sc.Meta = map[string]string{"workload": mustJSON(m)}
 	sc.Knobs = Knobs{RowStride: 1, Pool: "lifo", MinPerCore: r.Pick(0, 2)}
+	if strings.Contains(strings.Join(g.lines, "\n"), "SOURCE `") {
+		// SOURCE resolves its file relative to the working directory: run this
+		// procedure without --repository, inside the run directory
+		sc.Knobs.RelRepo = true
+	}
 	sc.Sched = SchedSpec{Strategy: "sticky", Sticky: 0.7, Seed: hashLabel(seed, "s")}
 	sc.MaxSteps = 200000
 	return sc, m
